@@ -5,7 +5,7 @@ use std::collections::HashMap;
 use crate::corpus::*;
 use crate::driver::{Cfg, Cmd, MAC_SRV};
 use crate::engine::{self, product, unrank, Report, Violation};
-use crate::props::{cfg_lists, cfg_plain, sweep_frames};
+use crate::props::{cfg_plain, sweep_frames};
 use crate::sip::cookie_guess;
 use crate::wire::*;
 
@@ -33,7 +33,7 @@ pub fn run(rep: &mut Report, thorough: bool) {
     ];
     let payloads: [&[u8]; 3] = [b"", b"x", b"GET / HTTP/1.1\r\n\r\n"];
     let keys: Vec<[u64; 2]> = vec![[0, 0], [0x0123456789abcdef, 0xfedcba9876543210], [1, 0]];
-    let mut cfgs: Vec<Cfg> = vec![cfg_plain(), cfg_lists()];
+    let mut cfgs: Vec<Cfg> = crate::props::cfg_variants().into_iter().map(|x| x.1).collect();
     for k in &keys[1..] {
         cfgs.push(cfg_plain().with_key(*k));
     }
